@@ -11,8 +11,19 @@ obligation breaks.  Anything outside the supported subset makes the translator f
 usage: py2lean.py <repo>/src <out-dir>
 """
 import ast
+import os
 import sys
 from pathlib import Path
+
+# The stdlib units read the standard library *of the interpreter that runs this script*; the checks run
+# asynkit under /venv/bin/python (harness/core.py calls this script with sys.executable), so any other
+# way of starting the translator (MANIFEST.setup_cmd, tools/sweep.sh, by hand) is redirected to the same
+# interpreter — otherwise the generated files would describe another Python version's stdlib.
+_CHECK_PY = os.environ.get("ASYNKIT_CHECK_PYTHON", "/venv/bin/python")
+if __name__ == "__main__" and os.path.exists(_CHECK_PY) and \
+        os.path.realpath(sys.executable) != os.path.realpath(_CHECK_PY) and not os.environ.get("_PY2LEAN_REEXEC"):
+    os.environ["_PY2LEAN_REEXEC"] = "1"
+    os.execv(_CHECK_PY, [_CHECK_PY] + sys.argv)
 
 
 class Unsupported(Exception):
